@@ -238,6 +238,13 @@ func c11Scenarios(r *verdict.Run, race bool) {
 				}
 			}
 		}
+		if f.name == "BLMPOP" {
+			// a waiter that may take several elements (COUNT) from the first non-empty of several keys, woken by one
+			// transaction that fills two of its keys
+			for _, side := range []string{"LEFT", "RIGHT"} {
+				all = append(all, scn{kind: "m:count-across-keys", form: f, consumer: []string{side}})
+			}
+		}
 		if f.multi {
 			all = append(all, scn{kind: "f:multi-key-woken-once", form: f, multi: true})
 			all = append(all, scn{kind: "d:stolen-after-wake", form: f, multi: true, consumer: consumers[0]})
@@ -493,6 +500,37 @@ func c11Scenarios(r *verdict.Run, race bool) {
 			note(w1)
 			if len(elements(w1.reply)) != 1 || len(elements(w2.reply)) != 1 {
 				s.r.Report("sched/lost-wakeup/second-push/wrong-reply/"+sc.form.name, fmt.Sprintf("%s: replies %s and %s (each waiter must get one element)", s.name, w1.reply, w2.reply), s.rep())
+			}
+		case 'm':
+			// BLMPOP 0 3 a q q2 <side> COUNT 5 is blocked; one transaction pushes one element to q and two to q2. The
+			// waiter takes what the FIRST non-empty key holds (at most COUNT) and nothing else: every element is either
+			// in its reply or still in its list.
+			side := sc.consumer[0]
+			cmdM := []string{"BLMPOP", "0", "3", "a", "q", "q2", side, "COUNT", "5"}
+			from := c.EventCount()
+			c.Ctl("watch blk:before-wait")
+			w1.issue(cmdM, 30*time.Second)
+			s.logf("client %d: %s", w1.id, cmdString(cmdM))
+			if _, _, f := c.WaitEvent(from, func(ev host.Event) bool { return ev.Kind == "hit" && ev.Point == "blk:before-wait" && ev.ID == w1.id }, 5*time.Second); !f {
+				r.Inconclusive("waiter did not reach blk:before-wait")
+				return
+			}
+			time.Sleep(5 * time.Millisecond)
+			s.do("MULTI")
+			s.do("RPUSH", "q", "el-1")
+			s.do("RPUSH", "q2", "el-2", "el-3")
+			s.do("EXEC")
+			pushed = append(pushed, "el-1", "el-2", "el-3")
+			if !w1.finished(3 * time.Second) {
+				r.Report("sched/lost-wakeup/count-across-keys/"+side, fmt.Sprintf("%s: the waiter was not served", s.name), s.rep())
+				ok = false
+				break
+			}
+			note(w1)
+			got := elements(w1.reply)
+			if len(got) != 1 || got[0] != "el-1" {
+				r.Report("sched/multi-key/count-reaches-into-later-keys/"+side, fmt.Sprintf("%s: the waiter's reply is %s; it must be the one element of q, the first non-empty key", s.name, w1.reply), s.rep())
+				ok = false
 			}
 		case 'l':
 			// A (head of the queue) is held just before its wait; B blocks behind it. A push wakes A (it is taken out of the
@@ -813,7 +851,7 @@ func c11Scenarios(r *verdict.Run, race bool) {
 				ok = false
 			}
 		}
-		if sc.kind[0] == 'a' || sc.kind[0] == 'b' || sc.kind[0] == 'c' || sc.kind[0] == 'd' || sc.kind[0] == 'f' || sc.kind[0] == 'g' || sc.kind[0] == 'h' || sc.kind[0] == 'i' || sc.kind[0] == 'j' || sc.kind == "e:fifo-two-waiters" {
+		if sc.kind[0] == 'a' || sc.kind[0] == 'b' || sc.kind[0] == 'c' || sc.kind[0] == 'd' || sc.kind[0] == 'f' || sc.kind[0] == 'g' || sc.kind[0] == 'h' || sc.kind[0] == 'i' || sc.kind[0] == 'j' || sc.kind[0] == 'm' || sc.kind == "e:fifo-two-waiters" {
 			if sc.form.name != "BRPOP" && sc.form.name != "BRPOPLPUSH" || true {
 				s.conserve(pushed, delivered)
 			}
